@@ -147,7 +147,7 @@ func init() {
 			"one ONCE call site per query; no LIMIT; function errors under ASYNC belong to C10/C19; SPIN completion before return is not required (only 'adds no column')",
 			"ASYNC calls appear as direct select-list items (the README rules out ASYNC inside FROM clauses)",
 		},
-		Floor:         []string{"q.plain", "q.async", "q.spinasync", "q.spin", "q.once", "q.await-async", "star", "where", "nested", "shape.union", "shape.cte", "shape.cte-shadow-twice", "shape.multidim", "arg.null", "page", "page.empty", "order.async", "distinct.async", "joinop.derived", "joinop.both", "consumed.where", "consumed.aggregate", "consumed.group", "consumed.join-on", "consumed.in-subquery", "consumed.fnarg", "consumed.cte", "consumed.order", "consumed.dual", "failwait.nested", "reexec.async-failure", "shape.cte-nested-twice", "builtin.async", "failwait", "lat.zero", "lat.yield", "lat.random", "lat.skewed", "lat.straggler", "table.empty", "imm.async", "imm.spin", "imm.spinasync", "imm.harness", "imm.harness-mixedcase", "imm.registered-late", "imm.registered-after-plain", "q.async.if-branch", "shape.cte-union"},
+		Floor:         []string{"q.plain", "q.async", "q.spinasync", "q.spin", "q.once", "q.await-async", "star", "where", "nested", "shape.union", "shape.cte", "shape.cte-shadow-twice", "shape.multidim", "arg.null", "page", "page.empty", "order.async", "distinct.async", "joinop.derived", "joinop.both", "consumed.where", "consumed.aggregate", "consumed.group", "consumed.join-on", "consumed.in-subquery", "consumed.fnarg", "consumed.cte", "consumed.order", "consumed.dual", "failwait.nested", "reexec.async-failure", "shape.cte-nested-twice", "builtin.async", "failwait", "lat.zero", "lat.yield", "lat.random", "lat.skewed", "lat.straggler", "table.empty", "imm.async", "imm.spin", "imm.spinasync", "imm.harness", "imm.harness-mixedcase", "imm.registered-late", "imm.registered-after-plain", "q.async.if-branch", "shape.cte-union", "once.spelled-twice"},
 		MinNontrivial: 30,
 		Phases: []fw.Phase{
 			{Name: "ledger", N: func(t fw.Tier) int { return pick(t, 2500, 40000) }, Run: func(c *fw.Case) { c14Ledger(c, false) }},
@@ -157,6 +157,7 @@ func init() {
 			{Name: "consumed", N: func(t fw.Tier) int { return pick(t, 400, 8000) }, Run: c14Consumed},
 			{Name: "reexec-fail", N: func(t fw.Tier) int { return pick(t, 300, 6000) }, Run: c14ReexecFail},
 			{Name: "immediate", N: func(t fw.Tier) int { return len(c14Immediates) * 3 }, Run: c14Immediate},
+			{Name: "once-spelling", N: func(t fw.Tier) int { return pick(t, 120, 2000) }, Run: c14OnceSpelling},
 			{Name: "race", Race: true, N: func(t fw.Tier) int { return pick(t, 300, 5000) }, Run: func(c *fw.Case) { c14Ledger(c, true) }},
 		},
 		Witness: sqlWitness,
@@ -1235,4 +1236,53 @@ func okWord(o Outcome) string {
 		return fmt.Sprintf("returns %d rows", len(o.Rows))
 	}
 	return fmt.Sprintf("fails (%v)", o.Err)
+}
+
+
+// c14OnceSpelling: one ONCE function named in several letter cases within one
+// query (qualifier and name): it is one function, invoked a single time, and
+// every call site and every row sees that one value.
+func c14OnceSpelling(c *fw.Case) {
+	t := gen.RandTable(c.R, gen.TableSpec{Name: "t1", MinRows: 1, MaxRows: 8, NumCols: 1, StrCols: 1, StrStyle: gen.Plain})
+	spell := func() string {
+		return gen.Pick(c.R, []string{"ONCE", "once", "Once"}) + "." + gen.Pick(c.R, []string{"VFONCE", "vfonce", "VfOnce", "vfOnce"})
+	}
+	a, b, d := spell(), spell(), spell()
+	sql := fmt.Sprintf("SELECT rid, %s(7, 0, 1) AS a, %s(7, 0, 1) AS b FROM t1", a, b)
+	if c.Chance(0.5) {
+		sql = fmt.Sprintf("SELECT rid, %s(7, 0, 1) AS a, %s(7, 0, 1) AS b FROM t1 WHERE %s(7, 0, 1) >= 0", a, b, d)
+	}
+	if a == b {
+		c.Discard("one spelling only")
+		return
+	}
+	latPlan = nil
+	ledgerReset()
+	o := Run(DocOf(t), sql)
+	c.Feature("once.spelled-twice")
+	c.Sample(map[string]any{"sql": sql})
+	det := map[string]any{"sql": sql, "doc": DocOf(t), "observed": o.Describe()}
+	if !o.OK() {
+		c.Violate("error", fmt.Sprintf("query failed: %v", o.Describe()), det)
+		return
+	}
+	starts := 0
+	for _, e := range ledgerSnapshot() {
+		if e.kind == evStart {
+			starts++
+		}
+	}
+	want := vfValue(7.0, 1)
+	for _, r := range o.Rows {
+		m, _ := r.(map[string]any)
+		if m == nil || !val.Equal(m["a"], want) || !val.Equal(m["b"], want) {
+			c.Violate("value", fmt.Sprintf("a ONCE call site does not show the function's value %v: %s", want, short(val.Canon(r), 200)), det)
+			return
+		}
+	}
+	if starts != 1 {
+		c.Violate("once", fmt.Sprintf("one ONCE function spelled in several letter cases was invoked %d times in one query", starts), det)
+		return
+	}
+	c.Nontrivial(sql)
 }
